@@ -1066,6 +1066,26 @@ def model_wrapping(ex, args, fn):
     raise Unsupported(fn)
 
 
+def model_saturating(ex, args, fn):
+    a, b = args
+    bits = INT_TYPES[a.ty]
+    if fn.endswith("saturating_sub"):
+        return [(sx.TRUE, "ret", Int(sx.ite(sx.ge(a.t, b.t), sx.sub(a.t, b.t), sx.const(0)), a.ty), "")]
+    if fn.endswith("saturating_add"):
+        s_ = sx.add(a.t, b.t)
+        return [(sx.TRUE, "ret", Int(sx.ite(sx.lt(s_, sx.const(1 << bits)), s_, sx.const((1 << bits) - 1)), a.ty), "")]
+    raise Unsupported(fn)
+
+
+def model_abs_diff(ex, args, fn):
+    a, b = args
+    return [(sx.TRUE, "ret", Int(sx.ite(sx.ge(a.t, b.t), sx.sub(a.t, b.t), sx.sub(b.t, a.t)), a.ty), "")]
+
+
+def model_vec_with_capacity(ex, args, fn):
+    return [(sx.TRUE, "ret", VecVal([]), "")]
+
+
 def model_min(ex, args, fn):
     a, b = args
     return [(sx.TRUE, "ret", Int(sx.ite(sx.le(a.t, b.t), a.t, b.t), a.ty), "")]
@@ -1180,8 +1200,13 @@ MODELS = {
     r"^<T[IJ] as Into<u32>>::into$": model_into_u32,
     r"^<u\d+ as (From|Into)<u\d+>>::(from|into)$": model_from_widen,
     r"^<usize as (From|Into)<u\d+>>::(from|into)$": model_from_widen,
-    r"^(std|core)::cmp::min::<u\d+>$": model_min,
-    r"^(std|core)::cmp::max::<u\d+>$": model_max,
+    r"^(std|core)::cmp::min::<u\w+>$": model_min,
+    r"^(std|core)::cmp::max::<u\w+>$": model_max,
+    r"^<u\w+ as Ord>::min$|^(std|core)::cmp::Ord::min$": model_min,
+    r"^<u\w+ as Ord>::max$|^(std|core)::cmp::Ord::max$": model_max,
+    r"core::num::<impl u\w+>::saturating_(add|sub)$": model_saturating,
+    r"core::num::<impl u\w+>::abs_diff$": model_abs_diff,
+    r"^Vec::<.*>::with_capacity$": model_vec_with_capacity,
     r"RangeInclusive::<u\d+>::new$": model_range_inclusive_new,
     r"^<std::ops::Range(Inclusive)?<\w+> as IntoIterator>::into_iter$": model_into_iter,
     r"^<std::ops::Range(Inclusive)?<\w+> as Iterator>::next$": model_range_next,
